@@ -465,8 +465,10 @@ class Check:
             ev["coverage"]["notes"] = self.notes
         if not ev["coverage"]["samples"]:
             ev["coverage"]["samples"] = ["(no cases were reached: see notes)"]
-        os.makedirs(os.path.join(VERIF, "evidence"), exist_ok=True)
-        with open(os.path.join(VERIF, "evidence", self.pid + ".json"), "w") as f:
+        # evidence belongs to runs against /repo itself; runs against a scratch tree (VERIF_REPO) keep theirs apart
+        evdir = os.path.join(VERIF, "evidence") if REPO == "/repo" else os.path.join(BUILD, "evidence-scratch")
+        os.makedirs(evdir, exist_ok=True)
+        with open(os.path.join(evdir, self.pid + ".json"), "w") as f:
             json.dump(ev, f, indent=1, default=str)
         shutil.rmtree(self.work, ignore_errors=True)
         print("%s %s tier=%s seed=%s obligations=%d/%d evaluations=%d wall=%.1fs" % (
